@@ -16,6 +16,10 @@ Inductive ares :=
 | AErr (v : val)       (* an error was returned; the left value is now v *)
 | ACrash.              (* Go runtime panic *)
 
+(* continue with the result of a Go primitive that can panic *)
+Definition lift (r : res Z) (k : Z -> ares) : ares :=
+  match r with OK v => k v | _ => ACrash end.
+
 Inductive aop :=
 | OpSet | OpAdd | OpSub | OpMul | OpDiv | OpRem | OpOr | OpAnd | OpXor
 | OpShl | OpShr | OpRol | OpRor | OpLOr | OpLAnd.
@@ -57,7 +61,9 @@ Definition assign_set (l : val) (r : operand) : ares :=
   | VStr _ _, VIp a ns => AOk (VStr (if ns then [] else addr_string a) ns)
   (* RTIME *)
   | VRTime _, VInt v _ _ _ => if lit then AErr l else AOk (VRTime (wrap64 (v * Second)))
-  | VRTime _, VFloat f _ _ _ => if lit then AErr l else AOk (VRTime (f_to_int (fmul f (f_of_int Second))))
+  (* KNOWN FINDING (known_findings.txt, Props/C07.v rtime_set_float_refuted): the FLOAT is taken as
+     nanoseconds, not seconds; the repository's own test pins this, so it is recorded, not repaired *)
+  | VRTime _, VFloat f _ _ _ => if lit then AErr l else AOk (VRTime (f_to_int f))
   | VRTime _, VRTime ns => AOk (VRTime ns)
   | VRTime _, VTime ext _ _ => AOk (VRTime (time_unix_sec ext))
   (* TIME *)
@@ -211,7 +217,7 @@ Definition division (l : val) (r : operand) : ares :=
       if b =? 0 then AErr (VInt a true ni pi)
       else if rpi then AOk (VInt max64 n ni true)
       else if rni then AOk (VInt min64 n true pi)
-      else AOk (VInt (goquot a b) n ni pi)
+      else lift (godiv a b) (fun q => AOk (VInt q n ni pi))
   | VInt a n ni pi, VFloat f _ rni rpi =>
       if lit then AErr l
       else if is_fzero f then AErr (VInt a true ni pi)
@@ -228,7 +234,7 @@ Definition division (l : val) (r : operand) : ares :=
       else if rpi || is_pinf (fdiv a b) then AOk (VFloat max_float n ni true)
       else if rni || is_ninf (fdiv a b) then AOk (VFloat min_float n true pi)
       else AOk (VFloat (fdiv a b) n ni pi)
-  | VRTime a, VInt b _ _ _ => if b =? 0 then AErr l else AOk (VRTime (goquot a b))
+  | VRTime a, VInt b _ _ _ => if b =? 0 then AErr l else lift (godiv a b) (fun q => AOk (VRTime q))
   | VRTime a, VFloat f _ _ _ => if is_fzero f then AErr l else AOk (VRTime (f_to_int (fdiv (f_of_int a) f)))
   | _, _ => AErr l
   end.
@@ -241,28 +247,28 @@ Definition remainder (l : val) (r : operand) : ares :=
       if pi || rpi then AOk (VInt 0 n ni true)
       else if ni || rni then AOk (VInt 0 n true pi)
       else if b =? 0 then AErr (VInt a true ni pi)
-      else AOk (VInt (gorem a b) n ni pi)
+      else lift (gorem a b) (fun q => AOk (VInt q n ni pi))
   | VInt a n ni pi, VFloat f _ rni rpi =>
       if lit then AErr l
       else if pi || rpi then AOk (VInt 0 n ni true)
       else if ni || rni then AOk (VInt 0 n true pi)
       else if f_to_int f =? 0 then AErr (VInt a true ni pi)
-      else AOk (VInt (gorem a (f_to_int f)) n ni pi)
+      else lift (gorem a (f_to_int f)) (fun q => AOk (VInt q n ni pi))
   | VFloat a n ni pi, VInt b _ rni rpi =>
       if pi || rpi then AOk (VFloat fzero n ni true)
       else if ni || rni then AOk (VFloat fzero n true pi)
       else if b =? 0 then AErr (VFloat a true ni pi)
-      else AOk (VFloat (f_of_int (gorem (f_to_int a) b)) n ni pi)
+      else lift (gorem (f_to_int a) b) (fun q => AOk (VFloat (f_of_int q) n ni pi))
   | VFloat a n ni pi, VFloat b _ rni rpi =>
       if pi || rpi then AOk (VFloat fzero n ni true)
       else if ni || rni then AOk (VFloat fzero n true pi)
       else if f_to_int b =? 0 then AErr (VFloat a true ni pi)
-      else AOk (VFloat (f_of_int (gorem (f_to_int a) (f_to_int b))) n ni pi)
+      else lift (gorem (f_to_int a) (f_to_int b)) (fun q => AOk (VFloat (f_of_int q) n ni pi))
   | VRTime a, VInt b _ _ _ =>
-      if wrap64 (b * Second) =? 0 then AErr l else AOk (VRTime (gorem a (wrap64 (b * Second))))
+      if wrap64 (b * Second) =? 0 then AErr l else lift (gorem a (wrap64 (b * Second))) (fun q => AOk (VRTime q))
   | VRTime a, VFloat f _ _ _ =>
       if f_to_int (fmul f (f_of_int Second)) =? 0 then AErr l
-      else AOk (VRTime (gorem a (f_to_int (fmul f (f_of_int Second)))))
+      else lift (gorem a (f_to_int (fmul f (f_of_int Second)))) (fun q => AOk (VRTime q))
   | _, _ => AErr l
   end.
 
@@ -282,8 +288,8 @@ Definition bit_or := int_binop (fun a b => OK (Z.lor a b)).
 Definition bit_and := int_binop (fun a b => OK (Z.land a b)).
 Definition bit_xor := int_binop (fun a b => OK (Z.lxor a b)).
 (* a negative count is a runtime error (it was a Go panic before the repair) *)
-Definition shift_left := int_binop (fun a b => if b <? 0 then Err else OK (shl64 a b)).
-Definition shift_right := int_binop (fun a b => if b <? 0 then Err else OK (sar64 a b)).
+Definition shift_left := int_binop (fun a b => if b <? 0 then Err else goshl a b).
+Definition shift_right := int_binop (fun a b => if b <? 0 then Err else goshr a b).
 (* rotation of the 64-bit pattern by the count modulo 64 *)
 Definition rotate_left := int_binop (fun a b => if b <? 0 then Err else OK (rotl64 a (b mod 64))).
 Definition rotate_right := int_binop (fun a b => if b <? 0 then Err else OK (rotl64 a ((64 - b mod 64) mod 64))).
